@@ -269,7 +269,11 @@ class CommitHook:
             def patched(src, dst, *a, **ka):
                 if self.inside(dst):
                     self.fired += 1
-                    self.callback('rename', os.path.realpath(os.fspath(dst)))
+                    path = os.path.realpath(os.fspath(dst))
+                    self.callback('rename', path)
+                    r = original(src, dst, *a, **ka)
+                    self.callback('renamed', path)          # ... and right AFTER it returned
+                    return r
                 return original(src, dst, *a, **ka)
             return patched
 
@@ -354,9 +358,14 @@ def run_local_commit_points(h, base: Path, label, crash_at=None):
             return
         watch = [op[1]] + [n for n in h['names'] if n != op[1]][:3]
         here = os.getcwd()
+        expect = cur
+        if kind == 'renamed':       # the rename has published the object: from now on a reader must get the complete new bytes
+            expect = dict(cur)
+            apply_op(expect, op)
         try:
-            for b in observe_store(real, cur, watch, h['chunk']):
-                problems.append({'idx': idx, 'op': op[:2], 'when': 'before the rename' if kind == 'rename' else 'during the streamed copy',
+            for b in observe_store(real, expect, watch if kind != 'renamed' else watch[:1], h['chunk']):
+                problems.append({'idx': idx, 'op': op[:2], 'when': {'rename': 'before the rename', 'renamed': 'right after the rename returned',
+                                                                    'copy': 'during the streamed copy'}[kind],
                                  'kind': 'commit_point_reader', 'what': b})
         finally:
             os.chdir(here)
@@ -577,12 +586,12 @@ PRIMARY13 = {('s3c', 'upload'): 'PUT', ('s3c', 'upload_stream'): 'PUT', ('s3c', 
 
 def transient_rules(backend, idx, op, h):
     """The masked transient fault(s) this operation meets in the faulty runs: about 3 operations in 5 get one (S3 sometimes
-    two) - a connection dropped after at least one body piece, 503, 429 with retry-after, a refused connection - always
+    two) - a connection dropped after at least one body piece, 503, 429 with retry-after, 408, a refused connection - always
     within the retry budget, so the adapter must still answer exactly as the plain map does."""
     salt = len(h['ops']) + len(op[1])
     if (idx * 7 + salt) % 5 >= 3:
         return []
-    kind = ('drop_body', '503', '429', 'drop_body', 'drop')[(idx + salt) % 5]
+    kind = ('drop_body', '503', '429', 'drop_body', 'drop', '408')[(idx + salt) % 6]
     transfer = op[0] in ('upload', 'upload_stream', 'download', 'download_stream')
     if kind == 'drop_body' and not transfer:
         kind = 'drop'
